@@ -186,13 +186,14 @@ class solve_torchfcn(torch.autograd.Function):
 
         # calculate the grad of matrices parameters
         with torch.enable_grad():
-            params = [p.clone().requires_grad_() for p in params]
+            # (only the tensors that require grad get a differentiable copy: a copy of a
+            # constant tensor marked as requiring grad would be a leaf of the graph
+            # handed back to the caller that the caller can never reach)
+            params = [p.clone().requires_grad_() if p.requires_grad else p for p in params]
             with ctx.A.uselinopparams(*params):
                 loss = -ctx.A.mm(x)  # (*BABEM, nr, ncols)
 
-        grad_params = torch.autograd.grad((loss,), params, grad_outputs=(v,),
-                                          create_graph=torch.is_grad_enabled(),
-                                          allow_unused=True)
+        grad_params = _grad_wrt_differentiable(loss, params, v, torch.is_grad_enabled())
 
         # calculate the biases gradient
         grad_E = None
@@ -208,18 +209,24 @@ class solve_torchfcn(torch.autograd.Function):
         grad_mparams = []
         if ctx.M is not None and E is not None:
             with torch.enable_grad():
-                mparams = [p.clone().requires_grad_() for p in mparams]
+                mparams = [p.clone().requires_grad_() if p.requires_grad else p for p in mparams]
                 lmbdax = x * E.unsqueeze(-2)
                 with ctx.M.uselinopparams(*mparams):
                     mloss = ctx.M.mm(lmbdax)
 
-            grad_mparams = torch.autograd.grad((mloss,), mparams,
-                                               grad_outputs=(v,),
-                                               create_graph=torch.is_grad_enabled(),
-                                               allow_unused=True)
+            grad_mparams = _grad_wrt_differentiable(mloss, mparams, v, torch.is_grad_enabled())
 
         return (None, grad_B, grad_E, None, None, None, None, None,
                 *grad_params, *grad_mparams)
+
+def _grad_wrt_differentiable(outputs, params, grad_outputs, create_graph):
+    # gradient w.r.t. the tensors in params that require grad; None for the others
+    diff_params = [p for p in params if p.requires_grad]
+    if len(diff_params) == 0 or not outputs.requires_grad:
+        return tuple(None for _ in params)
+    grads = iter(torch.autograd.grad((outputs,), diff_params, grad_outputs=(grad_outputs,),
+                                     create_graph=create_graph, allow_unused=True))
+    return tuple(next(grads) if p.requires_grad else None for p in params)
 
 def custom_exactsolve(A, B, E=None,
                       M=None, **options):
